@@ -123,6 +123,18 @@ def jsonDecodeString : Bytes → Option (Bytes × Bytes)
   | [] => none
   | b :: t => if b = 0x22 then jsonDecodeBody t else none
 
+/-- The lexer's view of a string body (the opening quote being consumed already): offset of the
+    first *unescaped* `"` — a `\` hides the byte that follows it, whatever it is. -/
+def jsonFirstUnescapedQuote : Bytes → Option Nat
+  | [] => none
+  | b :: t =>
+    if b = 0x22 then some 0
+    else if b = 0x5C then
+      match t with
+      | [] => none
+      | _ :: t1 => (jsonFirstUnescapedQuote t1).map (· + 2)
+    else (jsonFirstUnescapedQuote t).map (· + 1)
+
 def jsonIsWs (b : UInt8) : Bool := b = 0x20 || b = 0x09 || b = 0x0A || b = 0x0D
 
 /-- drop leading JSON whitespace -/
